@@ -111,6 +111,16 @@ def plan(tier, seed):
         for e, word in _inner_words(exprs_multi_all):
             for items in ([("w", w1), ("o", word), ("w", w2), ("e", e)], [("e", e), ("w", w1), ("o", word)], [("o", word), ("e", e), ("w", w2)]):
                 yield (tuple(items) + (("K", word),), " ")
+        # every corpus and grammar expression between two inert words (one arrangement each: the breadth the permutation families lack - slash dates, '1/2 hour', 'ein Monat' ...)
+        from .. import alphabet
+
+        seen_e = set(exprs)
+        for e in [t for t, _ in alphabet.corpus_sentences()] + [x for _, ss in grammar.FAMILIES for x in ss]:
+            if e in seen_e or "#" in e:
+                continue
+            seen_e.add(e)
+            yield ((("w", w1), ("e", e), ("w", w2)), " ")
+            yield ((("e", e), ("w", w1), ("t", "#fun")), " ")
         # the same text again in another letter case, straight after the first call in the same process (labels keep their case, the resolution must not care)
         for e in exprs:
             for items in ([("w", w1), ("e", e), ("w", w2)], [("w", w1), ("o", ORDINARY), ("e", e), ("t", "#fun")], [("t", "#Q9"), ("e", e), ("w", w2)]):
